@@ -11,6 +11,24 @@ pub mod shift;
 mod subst;
 
 pub use self::shift::Shift;
+
+/// Verification hook: drives the crate-private in-place `Vec` map with arbitrary element types.
+#[cfg(chalk_verif)]
+pub fn verif_fallible_map_vec<T, U, E>(
+    vec: Vec<T>,
+    map: impl FnMut(T) -> Result<U, E>,
+) -> Result<Vec<U>, E> {
+    in_place::fallible_map_vec(vec, map)
+}
+
+/// Verification hook: drives the crate-private in-place `Box` map with arbitrary element types.
+#[cfg(chalk_verif)]
+pub fn verif_fallible_map_box<T, U, E>(
+    b: Box<T>,
+    map: impl FnOnce(T) -> Result<U, E>,
+) -> Result<Box<U>, E> {
+    in_place::fallible_map_box(b, map)
+}
 pub use self::subst::Subst;
 
 /// A "folder" is a transformer that can be used to make a copy of
